@@ -8,7 +8,7 @@ ALL = ['C%02d' % i for i in range(1, 21)]
 
 # property -> (technique, level text, level note, design ref)
 EXPL = 'Exploration: every generated case runs the real cocls code (unmodified headers, interposed std primitives) and is judged by an explicit oracle; holds on everything explored, no absence claim. '
-SC = 'sequentially consistent interleavings produced by the virtual runtime (scheduling points before/after every interposed std::atomic/fence/mutex/condition_variable/thread operation and at harness yields); g++ 12 / clang++ 14, libstdc++, x86-64; bounds as in the evidence rule'
+SC = 'sequentially consistent interleavings produced by the virtual runtime (scheduling points before/after every interposed std::atomic/fence/mutex/condition_variable/thread/shared_ptr operation and at harness yields); g++ 12 / clang++ 14, libstdc++, x86-64; bounds as in the evidence rule'
 SEQ = 'single-threaded histories: no schedule involved; g++ 12, libstdc++, ASan+UBSan+_GLIBCXX_ASSERTIONS; bounds as in the evidence rule'
 CHECKS = {
  'C01': ('rapidcheck-generated resolver/observer programs x generated/swept thread schedules on a virtual runtime; oracle = exactly-one-winner count, winner payload equality, observer agreement, instance counting, allocation balance, ASan/UBSan/assert',
@@ -72,7 +72,7 @@ def main():
     m = dict(
         version=1,
         setup_cmd='./check --setup',
-        hooks=dict(guard='COCLS_VERIF', enable='no source hook: the harness pre-includes engine/interpose.h which renames std::atomic/mutex/condition_variable/thread/deque/system_clock/stop_* to instrumented twins before including the unmodified cocls headers (-DCOCLS_VERIF is passed but nothing in /repo tests it)',
+        hooks=dict(guard='COCLS_VERIF', enable='no source hook: the harness pre-includes engine/interpose.h which renames std::atomic/mutex/condition_variable/thread/deque/system_clock/stop_*/shared_ptr/weak_ptr to instrumented twins before including the unmodified cocls headers (-DCOCLS_VERIF is passed but nothing in /repo tests it)',
                    baseline_off_cmd='cmake --build /repo/_build && ctest --test-dir /repo/_build -j8 --timeout 900',
                    source_commits=[], add_only=True),
         engines=[dict(name='vrt+rapidcheck+libfuzzer', path='engine/', serves_properties=sorted(FUZZED_THOROUGH),
